@@ -10,10 +10,14 @@
 mod audit;
 mod desc;
 mod gen;
-#[cfg(not(any(feature = "r10", feature = "r8", feature = "r9")))]
+#[cfg(not(any(feature = "r10", feature = "r8", feature = "r9", feature = "r0")))]
 mod gen_r7;
-#[cfg(not(any(feature = "r10", feature = "r8", feature = "r9")))]
+#[cfg(not(any(feature = "r10", feature = "r8", feature = "r9", feature = "r0")))]
 pub(crate) use gen_r7 as g;
+#[cfg(feature = "r0")]
+mod gen_r0;
+#[cfg(feature = "r0")]
+pub(crate) use gen_r0 as g;
 #[cfg(feature = "r9")]
 mod gen_r9;
 #[cfg(feature = "r9")]
@@ -33,6 +37,8 @@ pub const ENGINE: &str = if cfg!(feature = "r10") {
     "worldsim9"
 } else if cfg!(feature = "r8") {
     "worldsim8"
+} else if cfg!(feature = "r0") {
+    "worldsim0"
 } else {
     "worldsim"
 };
@@ -515,8 +521,8 @@ fn c17_target(rng: &mut Rng, which: usize) -> Op {
     match which {
         0 => Op::Remove { slot: 0, pick },
         1 => Op::Clear { slot: 0 },
-        2 => Op::Entry { slot: 0, pick, steps: vec![(true, rng.below(g::NC as u64) as u8, rng.next_u64())] },
-        3 => Op::Entry { slot: 0, pick, steps: vec![(false, rng.below(g::NC as u64) as u8, 0)] },
+        2 => Op::Entry { slot: 0, pick, steps: vec![(true, rng.below((g::NC as u64).max(1)) as u8, rng.next_u64())] },
+        3 => Op::Entry { slot: 0, pick, steps: vec![(false, rng.below((g::NC as u64).max(1)) as u8, 0)] },
         4 => Op::DropWorld { slot: 0 },
         5 => Op::Clone { src: 0, dst: 1 },
         6 => Op::CloneFrom { src: 0, dst: 1 },
@@ -530,9 +536,9 @@ fn c17_target(rng: &mut Rng, which: usize) -> Op {
             slot: 0,
             pick,
             steps: vec![
-                (true, rng.below(g::NC as u64) as u8, rng.next_u64()),
-                (false, rng.below(g::NC as u64) as u8, 0),
-                (true, rng.below(g::NC as u64) as u8, rng.next_u64()),
+                (true, rng.below((g::NC as u64).max(1)) as u8, rng.next_u64()),
+                (false, rng.below((g::NC as u64).max(1)) as u8, 0),
+                (true, rng.below((g::NC as u64).max(1)) as u8, rng.next_u64()),
             ],
         },
     }
